@@ -211,7 +211,7 @@ func (s *state) walk(node ast.Node) {
 
 	// Arithmetic operators ----------
 	case *ast.NegateNode:
-		s.js("(-", node.Arg, ")")
+		s.js("(- ", node.Arg, ")") // the space keeps a negative literal apart: (- -5), not (--5)
 	case *ast.AddNode:
 		s.op("+", node)
 	case *ast.SubNode:
